@@ -170,6 +170,7 @@ func TestC01(t *testing.T) {
 		newGrp := func() int { nextGrp++; return nextGrp }
 		addFrame(root, "root", newGrp())
 		sharedStep := false
+		var watchers []func() string
 		panicked := 0
 		classes := map[string]bool{}
 
@@ -331,6 +332,13 @@ func TestC01(t *testing.T) {
 					}
 					null := rapid.Bool().Draw(t, "null")
 					opName = fmt.Sprintf("GroupBy(%q,null=%v)", cols, null)
+					// the keys are a prefix of a longer list of the caller (spare capacity behind them)
+					backing := append(append(make([]string, 0, len(cols)+2), cols...), "zz-behind-the-keys")
+					cols = backing[:len(cols)]
+					beforeBacking := fmt.Sprint(backing)
+					watchers = append(watchers, func() string {
+						return diffStr("key list with the element behind it", beforeBacking, fmt.Sprint(backing))
+					})
 					beforeCols := fmt.Sprint(cols)
 					run = func() {
 						add(&member{kind: "grouper", g: qf.GroupBy(groupby.Columns(cols...), groupby.Null(null)), origin: opName, ixGrp: newGrp()})
@@ -594,6 +602,12 @@ func TestC01(t *testing.T) {
 			if argCheck != nil {
 				if d := argCheck(); d != "" {
 					t.Fatalf("an argument was changed by the operation: %s\n%s", d, desc())
+				}
+			}
+			// arguments of earlier steps that the results may still refer to (key lists handed to GroupBy) stay as given, too
+			for _, w := range watchers {
+				if d := w(); d != "" {
+					t.Fatalf("an argument of an earlier operation was changed: %s\n%s", d, desc())
 				}
 			}
 			// invariant: every earlier member is observably unchanged
